@@ -66,7 +66,7 @@ Section GenericProofs.
     - eapply mmove_shape; eauto.
     - intros x Hx. cbn [gp gm] in *. specialize (Lk x Hx). eapply mmove_parked; [exact Hm | exact Lk |].
       unfold gains. unfold free_ok in Hf.
-      destruct m as [c0|c0| |v|j| | | |y| | ]; try discriminate.
+      destruct m as [c0|c0| |v|j| | | |y| | |v]; try discriminate.
       + intros E. injection E as ->. unfold mmove in Hm.
         destruct (nth_error (cur (gm c)) w) as [[|p|p]|]; try discriminate;
         destruct (nth_error (hand (gm c)) w); try discriminate; destruct (nth_error (dq (gm c)) w); try discriminate.
